@@ -19,7 +19,10 @@ use hyper_util::server::conn::auto;
 use std::net::SocketAddr;
 use std::sync::Arc;
 use thiserror::Error;
+#[cfg(not(penguin_rs_verif))]
 use tokio::net::{TcpListener, TcpStream};
+#[cfg(penguin_rs_verif)]
+use penguin_simnet::{TcpListener, TcpStream};
 use tokio::task::JoinSet;
 use tokio_tungstenite::WebSocketStream;
 use tracing::{debug, error, info, trace};
